@@ -377,6 +377,61 @@ struct Run
         }
     }
 
+    // packets whose payloads are longer than the 16-bit wire length can express (the builders admit them): equality must
+    // follow the real sizes and every byte - lengths that differ by 65536, lengths that are multiples of 65536, content that
+    // differs only behind offset (length mod 65536)
+    void bigPayloadEquality(Rng& r)
+    {
+        struct Big
+        {
+            size_t n;
+            int variant;  // 0 base content, 1 last byte differs, 2 byte at (n mod 65536) + 3 differs
+        };
+        static const Big specs[] = {{65536, 0}, {65536, 1}, {131072, 0}, {131072, 2}, {65541, 0}, {65541, 1}, {65541, 2}, {70000, 0}, {5, 0}, {0, 0}};
+        std::vector<Packet> objs;
+        std::vector<Bytes> contents;
+        const uint8_t seedByte = r.byte();
+        for (auto& sp : specs)
+        {
+            Bytes b(sp.n);
+            for (size_t i = 0; i < sp.n; ++i)
+                b[i] = static_cast<uint8_t>(seedByte + i * 7 + (i >> 8));
+            if (sp.variant == 1 && sp.n)
+                b[sp.n - 1] ^= 0x01;
+            if (sp.variant == 2)
+                b[std::min(sp.n - 1, sp.n % 65536 + 3)] ^= 0x80;
+            Packet p;
+            p.setPayload(Payload(PayloadType(PayloadType::ethernet), b.data(), b.size()));
+            p.setTimestamp(42);
+            objs.push_back(p);
+            contents.push_back(std::move(b));
+        }
+        objs.push_back(Packet());  // no payload at all
+        objs.back().setTimestamp(42);
+        contents.push_back(Bytes());
+        for (size_t i = 0; i < objs.size(); ++i)
+            for (size_t j = 0; j < objs.size(); ++j)
+            {
+                ++c.evaluations;
+                const bool eq = objs[i] == objs[j], ne = objs[i] != objs[j], rev = objs[j] == objs[i];
+                char buf[200];
+                snprintf(buf, sizeof buf, "packets with payloads of %zu and %zu bytes", contents[i].size(), contents[j].size());
+                if (eq != rev)
+                    c.violation("C14:equality-not-symmetric", buf, buf);
+                if (ne == eq)
+                    c.violation("C14:inequality-is-not-negation-of-equality", buf, buf);
+                // (two empty / absent payloads are outside the statement: "for packets with non-empty payloads")
+                if ((!contents[i].empty() || !contents[j].empty()) && eq != (contents[i] == contents[j]))
+                    c.violation("C14:equality-disagrees-with-fieldwise-comparison",
+                                std::string(buf) + (eq ? " compare equal although their payloads differ" : " compare unequal although their payloads are identical"), buf);
+            }
+        // a copy of a big packet equals it and owns its bytes
+        Packet cpy(objs[3]);
+        if (!(cpy == objs[3]) || cpy.getPayload().getLength() != contents[3].size() || memcmp(cpy.getPayload().getRawPayload(), contents[3].data(), contents[3].size()) != 0)
+            c.violation("C14:copy-construct-target-differs-from-source", "copy of a packet with a 131072-byte payload", "131072-byte payload");
+        c.count("big_payload_equality_pairs", objs.size() * objs.size());
+    }
+
     // one in-place change of the payload content that does not go through setData / setPayload
     static const char* editInPlace(Packet& p)
     {
@@ -573,6 +628,8 @@ inline void round(Ctx& c, long idx)
     }
     run.equality(pool);
     run.payloads(r);
+    if (idx % 4 == 0)
+        run.bigPayloadEquality(r);
     c.count("rounds");
     c.count("pool_objects", pool.size());
     if (c.samples.size() < 2)
